@@ -12,6 +12,11 @@
  * Check input for illegal inline zero
  * and copy to destination
  * 
+ * The separator is the byte in the state context (default: zero).
+ * A longer separator is supplied by the caller in the scratch area
+ * (behind finished data, length in state.scratch) and moved along;
+ * the state context then holds the size of the message in progress.
+ * 
  * \param info  coding information
  * \param to    target data for encoding
  * \param from  data to encode
@@ -116,32 +121,28 @@ extern ssize_t mpt_encode_string(MPT_STRUCT(encode_state) *info, const struct io
 		}
 		/* check longer separator pattern */
 		else {
-			const uint8_t *cmp = base, *val;
-			ssize_t i, total;
+			const uint8_t *delim = base - sep, *src = from->iov_base;
+			size_t back, i, j;
 			
-			/* relative compare start position */
-			i = (off < len) ? -off : 1 - len;
+			/* end of message in progress may start a separator */
+			back = (info->_ctx < sep) ? info->_ctx : sep - 1;
 			
-			total = max - len;
-			for (val = base - len + i; i < total; ++i, ++val) {
-				const uint8_t *v2, *c2;
-				ssize_t j, k;
-				if (!i) val = from->iov_base;
-				if (*val != *cmp) continue;
-				v2 = val + 1;
-				c2 = cmp + 1;
-				for (j = i+1, k = j+len; i < k; ++j) {
-					if (!j) v2 = from->iov_base;
-					if (*(v2++) != *(c2++)) {
+			for (i = 0; (i + sep) <= (back + max); ++i) {
+				for (j = 0; j < sep; ++j) {
+					size_t p = i + j;
+					uint8_t val = (p < back) ? (delim - back)[p] : src[p - back];
+					if (val != delim[j]) {
 						break;
 					}
 				}
-				if (j == k) {
-					return -3;
+				if (j == sep) {
+					return MPT_ERROR(BadEncoding);
 				}
 			}
 			/* move delimiter string */
 			memmove(base+max-sep, base-sep, sep);
+			/* size of message in progress */
+			info->_ctx += max;
 		}
 	}
 	else if (memchr(from->iov_base, info->_ctx, max)) {
@@ -149,9 +150,8 @@ extern ssize_t mpt_encode_string(MPT_STRUCT(encode_state) *info, const struct io
 	}
 	/* copy source data */
 	memcpy(base-sep, from->iov_base, max);
-	off += max;
 	
-	info->done = off;
+	info->done += max;
 	
 	return max;
 }
